@@ -1767,12 +1767,11 @@ theorem c15_shape_ServiceProcessor_ProcessClientStreamRequest :
    ["verifC15Point", "close:stopAll", "stopAllOnce.Do", "outLock.Lock", "close:outChan",
      "outLock.Unlock", "go{", "verifC15Point", "server.Suite", "network.DefaultConstructors",
      "protobuf.DecodeWithConstructors", "endStream", "callInterfaceFunc",
-     "close:stopServiceChan", "endStream", "inChan.Pointer", "inChan.Pointer", "outLock.Lock",
-     "outLock.Unlock", "go{", "recv:stopAll", "closing.Lock", "defer:closing.Unlock",
-     "recv:stopServiceChan", "close:stopServiceChan", "}", "go{", "defer{", "verifC15Point",
-     "outLock.Lock", "close:outChan", "outLock.Unlock", "}", "v.Interface", "protobuf.Encode",
-     "verifC15Point", "send:outChan", "recv:stopAll", "}", "close:stopAll", "stopAllOnce.Do",
-     "}"] := rfl
+     "close:stopServiceChan", "endStream", "outLock.Lock", "outLock.Unlock", "go{",
+     "recv:stopAll", "closing.Lock", "defer:closing.Unlock", "recv:stopServiceChan",
+     "close:stopServiceChan", "}", "go{", "defer{", "verifC15Point", "outLock.Lock",
+     "close:outChan", "outLock.Unlock", "}", "v.Interface", "protobuf.Encode", "verifC15Point",
+     "send:outChan", "recv:stopAll", "}", "close:stopAll", "stopAllOnce.Do", "}"] := rfl
 
 theorem c15_shape_wsHandler_ServeHTTP :
     Shapes.websocket_wsHandler_ServeHTTP =
